@@ -15,8 +15,9 @@ CONSTANTS
   DelHi = {}
   MaxPend = 4
   AllowKF = {"KF-C01-2"}
-  KFInitOpts = TRUE
-  KFV1Hist = TRUE
+  KFInitOpts = FALSE
+  KFV1Hist = FALSE
+  PreT = {}
   Balanced = TRUE
   EmitMode = "none"
 INVARIANTS C01_Exact InoSorted OohSorted EmitWalk
